@@ -52,6 +52,16 @@ func driveBimap(plan []M, out *Out, _ []string) {
 				bm[n].RemoveForward(bmKey(num(c, "k")))
 			case "RemoveReverse":
 				bm[n].RemoveReverse(bmVal(num(c, "v")))
+			case "GetForward":
+				v, ok := bm[n].GetForward(bmKey(num(c, "k")))
+				e["pr"], e["pok"] = bmValID(v, ok), ok
+			case "GetReverse":
+				k, ok := bm[n].GetReverse(bmVal(num(c, "v")))
+				e["pr"], e["pok"] = bmKeyID(k, ok), ok
+			case "ContainsForward":
+				e["pr"], e["pok"] = 0, bm[n].ContainsForward(bmKey(num(c, "k")))
+			case "ContainsReverse":
+				e["pr"], e["pok"] = 0, bm[n].ContainsReverse(bmVal(num(c, "v")))
 			case "Clear":
 				bm[n].Clear()
 			case "Clone":
